@@ -79,7 +79,7 @@ class Prog:
         if f == "INSTR":
             return "INSTR(%s,%s)" % (self.str_expr(depth + 1), self.pick(['"A"', '"l"', '"o"', '""', '"zz"']))
         if f == "POS":
-            return "POS(0)"
+            return "POS(0)" if self.features.get("layout", True) else "7"
         if f == "CINT":
             return "CINT(%s)" % self.pick(["1.5", "2.5", "-1.5", "7", "A"])
         return "%s(%s)" % (f, self.num_expr(depth + 1))
@@ -183,7 +183,10 @@ class Prog:
         if r < 0.93:
             return self.read_stmt()
         if r < 0.96:
-            return self.pick(["REM note", "' tick", "TRON", "TROFF", "CLS", "RESTORE"])
+            opts = ["REM note", "' tick", "CLS", "RESTORE"]
+            if self.features.get("tron", True):
+                opts += ["TRON", "TROFF"]
+            return self.pick(opts)
         return "%s=%s" % (self.pick(["D#", "E#", "V!"]), self.pick(["1/3", "2/3", "1E10*3", "0.1+0.2", "100/7", "1E-3"]))
 
     def print_stmt(self):
@@ -195,12 +198,14 @@ class Prog:
                 parts.append(self.num_expr(1))
             elif r < 0.8:
                 parts.append(self.str_expr(1))
+            elif not self.features.get("layout", True):
+                parts.append(self.str_lit())
             elif r < 0.9:
                 parts.append("TAB(%s)" % self.pick(["5", "10", "20", "1", "0"]))
             else:
                 parts.append("SPC(%s)" % self.pick(["1", "3"]))
             if i < n - 1 or self.rng.random() < 0.3:
-                parts.append(self.pick([";", ";", ",", " "]))
+                parts.append(self.pick([";", ";", ",", " "]) if self.features.get("layout", True) else ";")
         kw = self.pick(["PRINT", "PRINT", "?"])
         return (kw + " " + "".join(parts)).rstrip() if parts else kw
 
@@ -238,7 +243,7 @@ class Prog:
             self.on_branch(budget)
         elif r < 0.92:
             self.back_goto(budget)
-        elif r < 0.96:
+        elif r < 0.96 and self.features.get("input", True):
             self.input_stmt()
         else:
             self.emit([self.simple()])
@@ -410,8 +415,10 @@ class Prog:
         self.blocks(size, 4)
         if rng.random() < 0.12:
             self.emit([rng.choice(["PRINT 1\\0", "X=32767:I%=X+1", 'A="s"', "NEXT", "RETURN", "PRINT P(11)", "READ A,A,A,A,A,A,A,A,A",
-                                   "PRINT FNZ(1)", "DIM P(3)", "ERASE ZZ", 'PRINT ASC("")', "STOP", "PRINT LEFT$(5,1)", "ON -1 GOTO 10"])])
-        self.emit([rng.choice(["END", "END", "END", "END", 'PRINT "done":END', "STOP"])] if rng.random() < 0.93 else ["REM last"])
+                                   "PRINT FNZ(1)", "DIM P(3)", "ERASE ZZ", 'PRINT ASC("")', "PRINT LEFT$(5,1)", "ON -1 GOTO 10"]
+                                  + (["STOP"] if self.features.get("stop", True) else []))])
+        enders = ["END", "END", "END", "END", 'PRINT "done":END'] + (["STOP"] if self.features.get("stop", True) else [])
+        self.emit([rng.choice(enders)] if rng.random() < 0.93 else ["REM last"])
         self.lines.extend(self.subs)
         # DATA lines anywhere
         want = getattr(self, "want_data", [])
@@ -444,6 +451,7 @@ class Prog:
         return out, list(self.inputs)
 
 
-def generate(rng, size=None):
-    p = Prog(rng)
-    return p.build(size if size is not None else rng.randint(2, 7))
+def generate(rng, size=None, features=None, want_prog=False):
+    p = Prog(rng, features)
+    out = p.build(size if size is not None else rng.randint(2, 7))
+    return (out[0], out[1], p) if want_prog else out
